@@ -96,7 +96,7 @@ def slim_event(res, extra=None, keep_parts=False):
         o = res["obs"]
         obs = {k: o[k] for k in OBS_KEYS if k in o}
         if keep_parts:
-            for k in ("parts", "list", "breakdown", "rest", "props", "amount", "left", "right", "suggestions",
+            for k in ("parts", "list", "breakdown", "rest", "props", "amount", "left", "right", "suggestions", "suggestions_cp",
                       "rfc3339", "fields", "cats", "of", "name", "canon", "def", "value"):
                 if k in o and o[k] is not None:
                     obs[k] = strip_nulls(o[k])
@@ -179,7 +179,8 @@ def env_file(dump, tag="env"):
     env = {"base": dump["base"],
            "units": [{"name": u["name"], "val": u["val"]} for u in dump["units"]],
            "prefixes": [{"name": p["name"], "v": p["v"]} for p in dump["prefixes"]],
-           "substnames": [s["name"] for s in dump["substances"]] + [s["sym"] for s in dump["symbols"]]}
+           "substnames": [s["name"] for s in dump["substances"]] + [s["sym"] for s in dump["symbols"]],
+           "quantities": [{"name": q["name"], "dims": q["dims"]} for q in dump["quantities"]]}
     path = vlib.workfile("%s.json" % tag)
     with open(path, "w") as f:
         json.dump(env, f)
